@@ -218,16 +218,25 @@ def judge(ctx, p, out, rc, err):
             if m2 != mtag or m3 != mcnt or fill != 1:
                 ctx.fail("wrong-payload", "rank %d receive %d: payload header %s filler_ok %d for message %s" % (r, j, [m0, m1, m2, m3], fill, got), case)
     if incomplete and len(ctx.failures) == nfail0:
-        # nothing wrong in what was logged: the program itself hung.  Recognise the one known shape.
-        shape = False
+        # nothing wrong in what was logged: the program itself hung.  Recognise the two known shapes (a pre-posted receive
+        # that waits in the small mailbox never gets its message):
+        #  - the message is >= async-small-thresh and larger than the buffer (goes to the large mailbox: no truncation error)
+        #  - the message is < async-small-thresh and a receive posted later in the large mailbox accepts it (and got it, if it was logged)
+        shape = shape2 = False
         for r in range(np_):
-            for j, (src, tag, buf, kind, pre) in enumerate(p["recvs"][str(r)]):
+            rl = p["recvs"][str(r)]
+            for j, (src, tag, buf, kind, pre) in enumerate(rl):
                 if pre and 4 * buf < p["async_small"] and (r, j) not in logs:
                     for s in range(np_):
                         for i, (dst, mtag, cnt, mode) in enumerate(p["sends"][str(s)]):
-                            if dst == r and compat.get((r, j, s, i), [0])[0] == 1 and cnt > buf and 4 * cnt >= p["async_small"]:
-                                shape = True
-        ctx.fail("truncation-deadlock-preposted" if shape else "run-failed",
+                            if dst == r and compat.get((r, j, s, i), [0])[0] == 1:
+                                if cnt > buf and 4 * cnt >= p["async_small"]:
+                                    shape = True
+                                if 4 * cnt < p["async_small"] and any(
+                                        rl[j2][4] and 4 * rl[j2][2] >= p["async_small"] and compat[(r, j2, s, i)][0] == 1
+                                        and ((r, j2) not in logs or tuple(logs[(r, j2)][4:6]) == (s, i)) for j2 in range(j + 1, len(rl))):
+                                    shape2 = True
+        ctx.fail("truncation-deadlock-preposted" if shape else "overtaking-preposted-small-buffer-before-large-buffer" if shape2 else "run-failed",
                  "program ended with rc=%d and %d/%d receive logs (async-small-thresh %d): %s" % (
                      rc, len(logs), nrecv, p["async_small"], " ".join((err or out)[-260:].split())), p)
     return len(logs)
@@ -274,6 +283,8 @@ def run(ctx):
     ctx.assumptions += [
         "the order in which messages of different senders reach a wildcard-source receive is not constrained (any is accepted)",
         "receivers with specific sources: the expected message is the first pending one of that sender the verified predicate accepts, receives taken in posting order (pre-posted first)",
+        "when a program hangs, a pre-posted receive without a log is presumed to hold the message MPI gives it (it is not counted as pending against later receives); "
+        "an Iprobe loop that gives up (driver marker -99) counts as a receive that never completed; a hang with no rejected log is itself a failure",
         "communicator ids other than MPI_COMM_WORLD's and MPI_UNDEFINED communicators are covered by the theorem only, not by the runs",
         "count/status of a truncated receive are not checked beyond the error code (undefined in MPI)"]
 
